@@ -253,8 +253,12 @@ def check(tier: str) -> Result:
     res.add("C11.R6", env_site(ea, "reset")[0], env_site(ea, "reset")[1], "TSP: num_visited starts at 0", all(_is_zero(a) for a in r_alts), f"value {txt(r0, 3, 80)}")
     conds = last_conditions(ea)
     hit = None
+    from ..normal import negand as _negand
     for c in conds:
         c0 = strip_cast(c)
+        n0 = _negand(c0)
+        if n0 is not None and n0.kind == "cmp" and n0.args[0] in ("!=", "<"):
+            c0 = mk("cmp", {"!=": "==", "<": ">="}[n0.args[0]], n0.args[1], n0.args[2])      # not (x != N) is x == N
         if c0.kind == "cmp" and c0.args[0] in ("==", ">="):
             a_, b_ = _unc(strip_cast(c0.args[1])), _unc(strip_cast(c0.args[2]))
             for x, y in ((a_, b_), (b_, a_)):
